@@ -8,7 +8,7 @@ from .registry import clause_text, clause_active
 SPEC_FUNCS = {"old", "implies", "forall", "exists", "isint", "isstr", "isnone", "isbool", "isref", "ispath", "isfloat",
               "isbytes", "elems", "at", "length", "result", "iff", "count_where", "isclass", "keys", "lookup", "haskey",
               "distinct", "isfile", "isdir", "exists_path", "issymlink", "fs_text", "fs_target", "effect", "no_effect",
-              "effect_count", "fresh", "unchanged", "ite", "seq_eq", "raised", "isfresh", "forall_keys", "forall_val", "isregular", "isabsent", "effect_before", "effect_result", "at_effect", "fs_read", "parses_int", "writes_count", "effect_arg", "bm_self", "p_joinp", "dict_unchanged", "reached_loop", "effect_with_arg", "monotone_true", "at_iteration_start", "p_relative_to", "no_effect_here", "effect_arg_nth", "getattr_dyn", "py_equal"}
+              "effect_count", "fresh", "unchanged", "ite", "seq_eq", "raised", "isfresh", "forall_keys", "forall_val", "isregular", "isabsent", "effect_before", "effect_result", "at_effect", "fs_read", "parses_int", "writes_count", "effect_arg", "bm_self", "p_joinp", "dict_unchanged", "reached_loop", "maybe_effect", "effect_with_arg", "monotone_true", "at_iteration_start", "p_relative_to", "no_effect_here", "effect_arg_nth", "getattr_dyn", "py_equal"}
 
 
 class CallMixin:
